@@ -3,8 +3,15 @@ import exprcheck as xc
 import props
 
 
+FUNCTOR_OPS = ("addmod", "submod", "mulmod", "cshoup", "mulshoup4")
+
+
 def streams(ctx, res):
-    return xc.expr_streams(ctx, res, "c07")
+    cov = xc.expr_streams(ctx, res, "c07")
+    # the element functors an expression is made of (coefficient-wise meaning = these, C03): their boundary-directed
+    # stream on table rows far from the start is part of C07's tie (the generated TUs use the first 1-3 moduli only)
+    props.ops_streams(ctx, res, backends=("serial",), only=lambda l: l.split(" ", 1)[0] in FUNCTOR_OPS)
+    return cov
 
 
 def search(ctx, res, problems):
